@@ -125,6 +125,14 @@ def check_value(name, plain):
     except Exception as err:
         return [("encode:%s:%s" % (short, type(err).__name__), "%s %s does not encode: %r" % (short, _s(plain), err))], None
     fails = []
+    # 1b. the same unchanged object encodes to the same octets every time
+    try:
+        twice, _ = encode_value(k, obj)
+        if twice != octets:
+            return [("encode-twice:%s" % short, "%s %s: first encoding %s (%d octets), second encoding of the same object %s (%d octets)"
+                     % (short, _s(plain), octets[:30].hex(), len(octets), twice[:30].hex(), len(twice)))], octets
+    except Exception as err:
+        return [("encode-twice:%s:%s" % (short, type(err).__name__), "%s %s: the second encoding of the same object raised %r" % (short, _s(plain), err))], octets
     # 2. decode
     try:
         back, left = decode_value(k, octets, hdr)
